@@ -109,8 +109,8 @@ CLAIMED.update({
 CLAIMED.update({
     'C03': dict(level='proof', technique='Lean 4 proofs about the process-network class (diamond, determinacy of the terminal state incl. the deadlock verdict, capacity monotonicity, hand-over of channel ends) and clean-termination proofs of four library pipelines and of all linear chains, a sequential-composition theorem + source scan that the library stays in the class + Go runs of every pipeline under schedules/capacities/pacings with a goroutine census',
                 text='Proved for every network of sequential processes over bounded FIFO channels (unbuffered = rendezvous) in which no two processes are ever about to use the same end of a channel (one fixed reader and writer per channel, or ends that are handed over as in Ema/Rma/Smma - for which this is proved as an invariant): two enabled processes commute; if one schedule reaches a terminal state every schedule can be extended to that same state and none is longer, so delivered values, their order and the verdict (clean termination or deadlock) do not depend on interleaving, GOMAXPROCS or pacing; a clean termination with small capacities holds for all larger ones. '
-                     'Clean termination with exactly the documented values is proved, for every input, parameter, capacity and schedule, for four pipelines at machine level - helper.Change, trend.MovingSum, trend.Sma and the Ema/Rma/Smma hand-over (seed pipeline as one process) - and for every linear chain of map/skip/shift/pipe stages of any length (by induction through a sequential-composition theorem for networks that share one channel). NOT proved: that every other concrete pipeline terminates cleanly for every configuration and length - that part is explored by running all 61 indicators, 32 strategies (Compute, Report, ComputeWithOutcome) and compound/decorated strategies over configurations (incl. extreme period spreads), lengths around every period, unequal input lengths, under GOMAXPROCS x input capacity x pacing settings, with a deadlock verdict from a goroutine census, a leak census and comparison of the outputs between schedules and with the Lean list-semantics model. '
-                     'Five machine-level networks (the Duplicate/Operate diamond, Change, MovingSum, Sma, Ema) are executed against the Go helpers (verdict and values).',
+                     'Clean termination with exactly the documented values is proved, for every input, parameter, capacity and schedule, for six pipelines at machine level - helper.Change, trend.MovingSum, trend.MovingMax, trend.MovingMin (the MovingSum network with an arbitrary stateful closure), trend.Sma and the Ema/Rma/Smma hand-over (seed pipeline as one process) - and for every linear chain of map/skip/shift/pipe stages of any length (by induction through a sequential-composition theorem for networks that share one channel). NOT proved: that every other concrete pipeline terminates cleanly for every configuration and length - that part is explored by running all 61 indicators, 32 strategies (Compute, Report, ComputeWithOutcome) and compound/decorated strategies over configurations (incl. extreme period spreads), lengths around every period, unequal input lengths, under GOMAXPROCS x input capacity x pacing settings, with a deadlock verdict from a goroutine census, a leak census and comparison of the outputs between schedules and with the Lean list-semantics model. '
+                     'Seven machine-level networks (the Duplicate/Operate diamond, Change, MovingSum, MovingMax, MovingMin, Sma, Ema) are executed against the Go helpers (verdict and values).',
                 design='§6 C03', note=NOTE_COMMON + ' Termination for all configurations/lengths is bounded exploration, hence proof-partial. The class membership of the code is a regex source scan (no select, no len(chan), no timers/locks in the pipeline packages).'),
     'C09': dict(level='proof', technique='Model: an instance is its configuration (calls are functions of configuration and input - the Lean models of C01/C05 have no instance state); tie: reuse histories and concurrent calls on one Go instance under the race detector compared with fresh instances and the model + receiver-write source scan',
                 text='In the model a Compute/Report call is a pure function of configuration and input, so reuse is definitional; the content is the tie: every indicator and strategy instance (Compute, Report, ComputeWithOutcome; compound and decorated ones; the shared instances of AllSplitStrategies/AllAndStrategies) is called several times in sequence and concurrently with different inputs, race detector on, and each result must equal the fresh-instance result and the Lean model. '
